@@ -17,7 +17,7 @@ def run(chk):
                 "sources and separately shipped sources) of random trees with collision-suffixed ids are read in a second "
                 "interpreter that never saw the originals; its alpha is validated against the payload by the same trace spec.")
     quick = chk.tier == "quick"
-    registry.run_machine(chk, PID, ["ser-3q", "ser-many-3q"], ["ser-3", "ser-3q", "ser-many-3q", "ser-many-4"], None)
+    registry.run_machine(chk, PID, ["ser-3q", "ser-many-3q", "ser-slots-3"], ["ser-3", "ser-3q", "ser-many-3q", "ser-many-4", "ser-slots-3"], None)
     registry.run_traces(chk, PID, 100 if quick else 1500, 40 if quick else 60, ser=True)
     registry.fresh_process(chk, 60 if quick else 1500)
 
